@@ -22,6 +22,25 @@ COMPLETE = ("C15.R1 name tables round-trip and unknown names are refused",)
 U = "mtbl/compression.c"
 
 
+# the library call that makes a function "the X (de)compressor", used when the registry's function name no longer exists
+# (two algorithms sharing a block format may share one function under a flag, a function may have been renamed)
+ROLE = {"_mtbl_compress_snappy": {"snappy_compress"}, "_mtbl_compress_zlib": {"deflate"}, "_mtbl_compress_lz4": {"LZ4_compress_default"},
+        "_mtbl_compress_lz4hc": {"LZ4_compress_HC"}, "_mtbl_compress_zstd": {"ZSTD_compress", "ZSTD_compressCCtx"},
+        "_mtbl_decompress_snappy": {"snappy_uncompress"}, "_mtbl_decompress_zlib": {"inflate"}, "_mtbl_decompress_lz4": {"LZ4_decompress_safe"},
+        "_mtbl_decompress_zstd": {"ZSTD_decompress", "ZSTD_decompressDCtx"}}
+
+
+def by_role(prog, name):
+    f = prog.func(name, U)
+    if f is not None:
+        return f
+    libs = ROLE.get(name)
+    cands = [g for g in prog.unit_funcs(U) if libs and g.file.endswith("compression.c") and any(c.get("callee") in libs for c in g.calls())]
+    if len(cands) != 1:
+        raise BrokenAnalysis("anchor function %s in %s not found (and %d functions call %s)" % (name, U, len(cands), sorted(libs or ())))
+    return cands[0]
+
+
 def switch_table(prog, cg, f, param_name):
     """tag -> list of paths"""
     ev = APE.run(prog, cg, f, bound=APE.BOUND)
@@ -137,16 +156,25 @@ def run(ctx, res):
                 res.check(not calls and p.ret() == ("c", FAILV), "C15.R1", site(f, c), "%s: failure (callers bypass the dispatcher)" % c,
                           "%s(%s) does %s" % (fn, c, [e.a for e in calls]), f.loc(f.body))
                 continue
-            good = len(calls) == 1 and calls[0].a == want and p.ret() == calls[0].c
+            wf_ = by_role(prog, want)
+            good = len(calls) == 1 and calls[0].a == wf_.name and p.ret() == calls[0].c
             # data arguments forwarded unchanged
             pn = [x["name"] for x in f.params]
             data = [("s", n) for n in pn if n not in (pn[0], "compression_level")]
             if good:
                 good = calls[0].b[:4] == data
+            if good and wf_.name != want:
+                # a function shared by several algorithms: on the paths this call takes (its other arguments being the constants
+                # passed here) it reaches this algorithm's library call and no other algorithm's
+                sub = APE.run(prog, cg, wf_, bound=APE.BOUND, start_env={q["name"]: calls[0].b[i] for i, q in enumerate(wf_.params)
+                                                                          if i < len(calls[0].b) and calls[0].b[i][0] == "c"})
+                reached = set(e.a for p2 in sub.paths for e in p2.events if e.kind == "call" and any(e.a in v for v in ROLE.values()))
+                good = bool(reached) and reached <= ROLE[want]
             res.check(good, "C15.R1", site(f, c), "%s -> %s with (input, size, output, output_size) forwarded" % (c, want),
                       "%s(%s) routes to %s" % (fn, c, ["%s(%s)" % (e.a, ",".join(APE.vstr(x) for x in e.b)) for e in calls]), f.loc(f.body))
             if good and which == "compress" and r.get("level_param"):
-                lv = calls[0].b[4]
+                li = [i for i, q in enumerate(wf_.params) if "level" in q["name"]]
+                lv = calls[0].b[li[-1]] if li and li[-1] < len(calls[0].b) else calls[0].b[4]
                 if fn == "mtbl_compress_level":
                     res.check(lv == ("s", "compression_level"), "C15.R1", site(f, c + ":level"), "level parameter forwarded",
                               "%s passes level %s instead of the caller's" % (fn, APE.vstr(lv)), f.loc(f.body))
@@ -171,7 +199,7 @@ def run(ctx, res):
         if r["compress"]:
             comp_funcs.setdefault(r["compress"], r)
     for fn, r in comp_funcs.items():
-        f = prog.need(fn, U)
+        f = by_role(prog, fn)
         res.saw(f)
         ev = APE.run(prog, cg, f, bound=APE.BOUND)
         _sizing(res, f, ev, r)
@@ -180,7 +208,7 @@ def run(ctx, res):
         if r.get("level_range"):
             _levels(res, f, ev, r)
     for fn in sorted(set(r["decompress"] for r in rows.values() if r["decompress"])):
-        f = prog.need(fn, U)
+        f = by_role(prog, fn)
         res.saw(f)
         ev = APE.run(prog, cg, f, bound=APE.BOUND)
         _errors(res, f, ev, liberr, OKV, FAILV)
@@ -365,13 +393,16 @@ def _frees(res, f, ev, OKV, FAILV):
 
 def _levels(res, f, ev, row):
     lr = row["level_range"]
-    target = {"_mtbl_compress_zlib": ("deflateInit_", 1), "_mtbl_compress_lz4hc": ("LZ4_compress_HC", 4),
-              "_mtbl_compress_zstd": ("ZSTD_compress", 4)}.get(f.name)
-    if target and target[0] == "ZSTD_compress" and not f.calls("ZSTD_compress") and f.calls("ZSTD_compressCCtx"):
-        target = ("ZSTD_compressCCtx", 5)     # context-taking sibling: same level argument, one position later
+    # which library call receives the level: by what the function calls, not by what it is called
+    target = None
+    for libfn, argi in (("deflateInit_", 1), ("LZ4_compress_HC", 4), ("ZSTD_compress", 4), ("ZSTD_compressCCtx", 5)):
+        if f.calls(libfn) and (row.get("compress") in ROLE and (libfn in ROLE[row["compress"]] or libfn == "deflateInit_" and "deflate" in ROLE[row["compress"]])):
+            target = (libfn, argi)
+            break
     if target is None:
         return
-    lvl = f.params[4]["name"]
+    lvls = [q["name"] for q in f.params if "level" in q["name"]]
+    lvl = lvls[-1] if lvls else f.params[4]["name"]
     n = 0
     for p in ev.paths:
         for e in p.events:
@@ -381,7 +412,7 @@ def _levels(res, f, ev, row):
             n += 1
             lo, hi = lr.get("lo"), lr.get("hi")
             sig = site(f, "level->%s" % target[0])
-            if f.name == "_mtbl_compress_zstd":
+            if target[0].startswith("ZSTD"):
                 vs = APE.vstr(v)
                 if vs.startswith("ZSTD_minCLevel()") or vs.startswith("ZSTD_maxCLevel()") or (v[0] == "c" and v[1] == 1):
                     res.ok("C15.R5", sig, "clamped to %s" % vs)
@@ -423,8 +454,12 @@ def _levels(res, f, ev, row):
 def _lz4_prefix(ctx, res):
     prog, cg = ctx.prog, ctx.cg
     res.floor("C15.R4", 3)
+    done_ = set()
     for fn in ("_mtbl_compress_lz4", "_mtbl_compress_lz4hc"):
-        f = prog.need(fn, U)
+        f = by_role(prog, fn)
+        if f.name in done_:
+            continue
+        done_.add(f.name)
         ev = APE.run(prog, cg, f, bound=APE.BOUND)
         for p in ev.paths:
             if p.end != "exit" or p.ret() != ("c", prog.enums["mtbl_res"]["mtbl_res_success"]):
@@ -441,7 +476,7 @@ def _lz4_prefix(ctx, res):
                       "lz4 framing differs: prefix %s, payload at %s, size %s" % (
                           [APE.vstr(x) for x in enc[0].b] if enc else None, APE.vstr(lib[0].b[1]) if lib else None,
                           APE.vstr(outs[-1].b) if outs else None), f.loc(f.body), p.describe(f))
-    f = prog.need("_mtbl_decompress_lz4", U)
+    f = by_role(prog, "_mtbl_decompress_lz4")
     ev = APE.run(prog, cg, f, bound=APE.BOUND)
     inn, insz = f.params[0]["name"], f.params[1]["name"]
     for p in ev.paths:
@@ -462,7 +497,7 @@ def _lz4_prefix(ctx, res):
 def _inflate_growth(ctx, res):
     """R7: when the zlib output buffer is enlarged, inflate is told exactly the room that was added, at the old end."""
     prog, cg = ctx.prog, ctx.cg
-    f = prog.need("_mtbl_decompress_zlib", U)
+    f = by_role(prog, "_mtbl_decompress_zlib")
     ev = APE.run(prog, cg, f, bound=APE.BOUND, opaque_calls=("my_realloc",))
     res.floor("C15.R7", 1)
     n = 0
